@@ -96,8 +96,10 @@ func vfc15SortedPartIDs(t *vfTopicState) []int32 {
 func vfc15NewPart(id, leader int32) *vfPartState {
 	p := &vfPartState{ID: id, Leader: leader, Producers: map[int64]*vfPidState{}}
 	if leader >= 0 {
-		p.Replicas = []int32{leader}
-		p.Isr = []int32{leader}
+		// the three lists differ from the start (ISR a proper subset of the replicas), so that an
+		// accessor answering with the wrong list is visible without a "replicas" step
+		p.Replicas = []int32{leader, leader + 1, leader + 7}
+		p.Isr = []int32{leader, leader + 7}
 	}
 	return p
 }
